@@ -218,6 +218,10 @@ func replayBatchFromChan(clck clock.Clock, batches <-chan edge.BufferedBatchMess
 				points[i].SetTime(points[i].Time().Add(diff).UTC())
 			}
 			lastTime = points[len(points)-1].Time()
+			// The time of the batch is shifted by the same offset as its points.
+			if bt := b.Begin().Time(); !bt.IsZero() {
+				b.Begin().SetTime(bt.Add(diff).UTC())
+			}
 		} else {
 			lastTime = points[len(points)-1].Time().Add(diff).UTC()
 		}
